@@ -303,6 +303,17 @@ pub fn find<P: PType>(st: &MapSt<P>, cx: &Cx) -> (Vec<Viol>, u64) {
                                 if let Some(x) = retag(compare_entries("TrieViewMut::find", &got, &want), "C12", ctx()) {
                                     out.push(x);
                                 }
+                                // the found view is a view like any other: sides, has_left/has_right, split
+                                if covers(vq, rp) && cx.deep_find_sides {
+                                    if let Some(Ok(r2)) = mc.view_mut_at(mkp(vqk)).map(|vm| vm.find(mkp(qk))) {
+                                        let mut vs = vec![];
+                                        check_sides_mut(&mut vs, &mut n, r2, rp, model, cx, 0);
+                                        for mut v in vs {
+                                            v.detail = format!("{} (view obtained by find): {}", ctx(), v.detail);
+                                            out.push(v);
+                                        }
+                                    }
+                                }
                             }
                             Err(back) => {
                                 expect!(out, want.is_empty(), "C12", "TrieViewMut::find", "view-missing", "{}: Err, entries {:x?}", ctx(), want);
